@@ -141,7 +141,9 @@ func tmVerify(kind int) {
 		root = rootOf(p1)
 	}
 	if fault == fOtherRoot {
+		genuineRoot := root
 		root = vp.Bytes("store.root", 32, 32)
+		vp.Assume(!vp.BytesEq(root, genuineRoot)) // another root: nobody can choose bytes equal to a SHA-256 image
 	}
 	consAt := h
 	if fault == fConsensusAtOtherHeight {
